@@ -171,7 +171,7 @@ t.scope(ops_scope)
 
 
 # ------------------------------------------------------------------ set_xmlns_context (stacked): bounded
-t = Target('namespaces.set_xmlns_context', ['C17'], F, 'NamespaceMapper.set_xmlns_context', bounded_only=True,
+t = Target('namespaces.set_xmlns_context', ['C17', 'C11'], F, 'NamespaceMapper.set_xmlns_context', bounded_only=True,
            note='bounded run-time contract on the real method in stacked mode over generated element trees: after entering a node, '
                 'namespaces = in-scope declarations of the node, R-INV holds, and every in-scope namespace round-trips; '
                 'after leaving a scope the saved pair is restored')
@@ -185,6 +185,14 @@ def _walk_docs(tier, rng):
         return (list(d.items()), kids)
     for _ in range(600 if tier == 'thorough' else 150):
         yield dict(tree=node(0))
+    # exhaustive two-level part: every declaration map over 3 prefixes x 3 URIs on the root (64) x every map on a child (64), followed by a
+    # sibling without declarations (the saved pair must be restored); quick takes a seeded quarter
+    import itertools
+    maps = [[(p, u_) for p, u_ in zip(pre, c) if u_] for c in itertools.product([None] + uris, repeat=3)]
+    r = rng.randrange(4)
+    for i, (a, b) in enumerate(itertools.product(maps, maps)):
+        if tier == 'thorough' or ((i * 2654435761 + 12345) >> 7) % 4 == r:
+            yield dict(tree=(a, [(b, [([], [])]), ([], [])]))
 
 
 @t.concrete
@@ -202,7 +210,8 @@ def _(inp):
     def visit(elem, level, inscope):
         xmlns = res.get_xmlns(elem) or []
         scope = dict(inscope); scope.update(xmlns)
-        m.set_xmlns_context(elem, level)
+        try: m.set_xmlns_context(elem, level)
+        except Exception as e: return f'level {level}: set_xmlns_context raised {type(e).__name__}: {e}'      # the contract allows no exception
         if dict(m.namespaces) != {k: v for k, v in scope.items()} and level > 0:
             return f'level {level}: namespaces={dict(m.namespaces)} expected {scope}'
         if not py_rinv(m): return f'level {level}: R-INV broken namespaces={dict(m.namespaces)} reverse={m._reverse}'
